@@ -25,6 +25,7 @@ type callGraph struct {
 	p          *Prog
 	implMemo   map[string][]*types.Named
 	fieldVals  map[*types.Var][]ssa.Value // values stored to struct fields (func-typed fields only)
+	ifaceVals  map[*types.Var][]ssa.Value // values stored to interface-typed struct fields
 	callers    map[*ssa.Function][]Edge   // static+invoke
 	calleeMemo map[ssa.CallInstruction][]*ssa.Function
 	extMemo    map[ssa.CallInstruction]bool
@@ -46,7 +47,7 @@ func interestingPkg(path string) bool {
 
 func (p *Prog) CG() *callGraph {
 	if p.cg == nil {
-		p.cg = &callGraph{p: p, implMemo: map[string][]*types.Named{}, fieldVals: map[*types.Var][]ssa.Value{},
+		p.cg = &callGraph{p: p, implMemo: map[string][]*types.Named{}, fieldVals: map[*types.Var][]ssa.Value{}, ifaceVals: map[*types.Var][]ssa.Value{},
 			callers: map[*ssa.Function][]Edge{}, calleeMemo: map[ssa.CallInstruction][]*ssa.Function{},
 			extMemo: map[ssa.CallInstruction]bool{}, fvMemo: map[ssa.Value]*fvRes{}}
 		p.cg.build()
@@ -95,7 +96,18 @@ func (g *callGraph) build() {
 		for _, b := range f.Blocks {
 			for _, in := range b.Instrs {
 				st, ok := in.(*ssa.Store)
-				if !ok || !isFuncType(st.Val.Type()) {
+				if !ok {
+					continue
+				}
+				if _, isIface := st.Val.Type().Underlying().(*types.Interface); isIface {
+					if fa, ok := st.Addr.(*ssa.FieldAddr); ok {
+						if fv := fieldVar(fa.X.Type(), fa.Field); fv != nil {
+							g.ifaceVals[fv] = append(g.ifaceVals[fv], st.Val)
+						}
+					}
+					continue
+				}
+				if !isFuncType(st.Val.Type()) {
 					continue
 				}
 				if fa, ok := st.Addr.(*ssa.FieldAddr); ok {
@@ -166,9 +178,101 @@ func (g *callGraph) implementers(iface types.Type) []*types.Named {
 	return out
 }
 
+// concreteTypes: the dynamic types an interface value may hold, when that can be
+// decided from the program (field-based for struct fields; constructor results).
+func (g *callGraph) concreteTypes(v ssa.Value, depth int) ([]types.Type, bool) {
+	if depth > 4 {
+		return nil, false
+	}
+	switch x := v.(type) {
+	case *ssa.MakeInterface:
+		return []types.Type{x.X.Type()}, true
+	case *ssa.ChangeInterface:
+		return g.concreteTypes(x.X, depth+1)
+	case *ssa.Phi:
+		var out []types.Type
+		for _, e := range x.Edges {
+			ts, ok := g.concreteTypes(e, depth+1)
+			if !ok {
+				return nil, false
+			}
+			out = append(out, ts...)
+		}
+		return out, true
+	case *ssa.Const:
+		return nil, true // nil interface
+	case *ssa.Call:
+		sc := x.Call.StaticCallee()
+		if sc == nil || sc.Blocks == nil {
+			return nil, false
+		}
+		var out []types.Type
+		for _, b := range sc.Blocks {
+			for _, in := range b.Instrs {
+				if r, ok := in.(*ssa.Return); ok && len(r.Results) >= 1 {
+					ts, ok := g.concreteTypes(r.Results[0], depth+1)
+					if !ok {
+						return nil, false
+					}
+					out = append(out, ts...)
+				}
+			}
+		}
+		return out, true
+	case *ssa.UnOp:
+		if fa, ok := x.X.(*ssa.FieldAddr); ok {
+			fv := fieldVar(fa.X.Type(), fa.Field)
+			if fv == nil || !interestingPkg(pkgPathOf(fv)) {
+				return nil, false
+			}
+			// an exported field can be assigned by user code
+			if fv.Exported() {
+				return nil, false
+			}
+			vals := g.ifaceVals[fv]
+			if len(vals) == 0 {
+				return nil, false
+			}
+			var out []types.Type
+			for _, sv := range vals {
+				ts, ok := g.concreteTypes(sv, depth+1)
+				if !ok {
+					return nil, false
+				}
+				out = append(out, ts...)
+			}
+			return out, true
+		}
+	}
+	return nil, false
+}
+
+func pkgPathOf(v *types.Var) string {
+	if v.Pkg() == nil {
+		return ""
+	}
+	return v.Pkg().Path()
+}
+
 func (g *callGraph) invokeTargets(c *ssa.CallCommon) []*ssa.Function {
 	var out []*ssa.Function
-	for _, nt := range g.implementers(c.Value.Type()) {
+	impls := g.implementers(c.Value.Type())
+	if cts, ok := g.concreteTypes(c.Value, 0); ok && len(cts) > 0 {
+		// restrict CHA to the types the value can actually hold
+		var keep []*types.Named
+		for _, nt := range impls {
+			for _, ct := range cts {
+				if n := namedOf(ct); n != nil && n == nt {
+					keep = append(keep, nt)
+					break
+				}
+			}
+		}
+		if len(keep) > 0 {
+			impls = keep
+		}
+	}
+	for _, nt := range impls {
 		for _, tt := range []types.Type{types.NewPointer(nt), nt} {
 			ms := g.p.SSA.MethodSets.MethodSet(tt)
 			sel := ms.Lookup(c.Method.Pkg(), c.Method.Name())
